@@ -225,3 +225,67 @@ Definition gone_ops (denied esrch : bool) : list (pview * op) :=
   let v := view_gone denied esrch in if denied then [(v, OpCwd)] else [(v, OpCwd); (v, OpExe)].
 Definition spec_gone (denied : bool) : list res :=
   if denied then [RBytes (Exc AccessDenied)] else [RBytes (Exc NoSuchProcess); RBytes (Exc NoSuchProcess)].
+
+(* ------------------------------------------------------------ cmdline(): the whole rule, for every byte string
+   Written from the documented rule (proc(5) + the comments of gh #1179): a file that ends
+   with NUL holds NUL-terminated arguments -- unless no NUL separates anything, in which
+   case it is a title whose words are separated by spaces; a file that does not end with NUL
+   is a title: words separated by spaces, one trailing space being a terminator (NULs inside
+   it stay inside the words). *)
+Definition spec_split (data : bytes) : list bytes :=
+  match rev data with
+  | [] => []
+  | last :: body_rev =>
+    let body := rev body_rev in
+    if last =? 0 then
+      if contains 0 body then split_on 0 body else split_on 32 body
+    else if last =? 32 then split_on 32 body
+    else split_on 32 data
+  end.
+
+Definition view_cmd_bytes (data : bytes) (zombie : bool) : pview :=
+  {| v_stat := Some zombie; v_stat_denied := false; v_comm := bs "x";
+     v_cmdline := FData data; v_environ := FData [];
+     v_exe := LENOENT; v_cwd := LENOENT; v_paths := [] |}.
+Definition spec_cmd_bytes (data : bytes) (zombie : bool) : outcome (list bytes) :=
+  match data with
+  | [] => if zombie then Exc ZombieProcess else Val []
+  | _ => Val (spec_split data)
+  end.
+
+Definition view_env_bytes (data : bytes) : pview :=
+  {| v_stat := Some false; v_stat_denied := false; v_comm := bs "x";
+     v_cmdline := FData []; v_environ := FData data;
+     v_exe := LENOENT; v_cwd := LENOENT; v_paths := [] |}.
+
+(* ------------------------------------------------------------ exe()/cwd() when the link is not given: the table *)
+Definition link_table (stat : option bool) (probe_denied : bool) : outcome bytes :=
+  match stat with
+  | Some false => Val []                 (* live process: '' *)
+  | Some true => Exc ZombieProcess       (* zombie *)
+  | None => if probe_denied then Exc AccessDenied   (* cannot tell: the probe of /proc/<pid>/stat is refused *)
+            else Exc NoSuchProcess       (* gone: the stat file is absent *)
+  end.
+
+(* ------------------------------------------------------------ environ(): every byte block read as entries
+   The block is a sequence of NUL-terminated entries; the first empty entry ends it (what
+   follows is garbage), bytes after the last NUL are an unterminated rest.  An entry is
+   NAME=value when its first '=' is not its first byte. *)
+Definition mk_item (e : bytes) : eitem :=
+  match find_byte 61 e with
+  | Some (S m) => EKV (firstn (S m) e) (skipn (S (S m)) e)
+  | _ => EJunk e
+  end.
+Fixpoint env_items (cur : bytes) (l : bytes) : list eitem * etail :=
+  match l with
+  | [] => ([], match cur with [] => ENone | _ => EUnterminated cur end)
+  | c :: r =>
+    if c =? 0 then
+      match cur with
+      | [] => ([], EEnd r)
+      | _ => let '(its, t) := env_items [] r in (mk_item cur :: its, t)
+      end
+    else env_items (cur ++ [c]) r
+  end.
+Definition env_read (data : bytes) : kenv :=
+  let '(its, t) := env_items [] data in {| e_items := its; e_tail := t |}.
